@@ -258,12 +258,27 @@ func buildC16(tier string) *core.Plan {
 			c16Check(c, []any{map[string]any{"l": lists[i/nl], "k": 1}, map[string]any{"l": lists[i%nl], "k": 1}})
 		}})
 	// scalars of other kinds, values that print alike, escaped dollars: "equal" means the same value
-	ka := gen.Alphabet{Scalars: []any{1, "1", true, "true", "", 1.5, -2, "$$x", "$$required"}, Keys: []string{"a", "b c", "$$k"}, MaxList: 2, MaxMap: 2}
+	ka := gen.Alphabet{Scalars: []any{1, "1", true, "true", "", 1.5, -2, "$$x", "$$required", false, 0, 0.0}, Keys: []string{"a", "b c", "$$k"}, MaxList: 2, MaxMap: 2}
 	kt := gen.Filter(gen.Trees(ka, 3), gen.IsMap)
 	nkt := int64(len(kt))
 	spaces = append(spaces, core.Space{Name: "pairs-other-scalar-kinds", N: nkt * nkt,
 		Desc: func(i int64) any { return []any{kt[i/nkt], kt[i%nkt]} },
 		Run:  func(c *core.Ctx, i int64) { c16Check(c, []any{kt[i/nkt], kt[i%nkt]}) }})
+	// lists wider than any small-size fast path, with duplicates and print-alike entries
+	wideA, wideB := []any{}, []any{}
+	for i := 0; i < 40; i++ {
+		wideA = append(wideA, i%7)
+		wideB = append(wideB, (i*3)%11)
+	}
+	wideC := append(append([]any{}, wideA...), "1", 1, "1", map[string]any{"k": 1}, map[string]any{"k": 1})
+	wides := []any{wideA, wideB, wideC, []any{}, []any{1}}
+	nwd := int64(len(wides))
+	spaces = append(spaces, core.Space{Name: "wide-list-pairs", N: nwd * nwd,
+		Desc: func(i int64) any { return map[string]any{"lengths": []int{len(wides[i/nwd].([]any)), len(wides[i%nwd].([]any))}} },
+		Run: func(c *core.Ctx, i int64) {
+			c16Check(c, []any{map[string]any{"l": wides[i/nwd], "k": 1}, map[string]any{"l": wides[i%nwd], "k": 1}})
+			c16Check(c, []any{map[string]any{"l": wides[i/nwd]}, map[string]any{"l": wides[i%nwd]}, map[string]any{"l": wides[(i+1)%nwd]}})
+		}})
 	if tier == "thorough" {
 		tiny := c15Trees(2)
 		n4 := int64(len(tiny))
@@ -637,6 +652,11 @@ func buildC17(tier string) *core.Plan {
 	lookalike := core.Space{Name: "marker-lookalikes", N: nla,
 		Desc: func(i int64) any { return []any{laTrees[i]} },
 		Run:  func(c *core.Ctx, i int64) { c17Check(c, []any{laTrees[i]}) }}
+	// documents whose root is a list (or a bare marker)
+	rootLists := []any{[]any{"$required"}, []any{1, map[string]any{"a": "$required"}}, []any{[]any{"$required"}, 2}, []any{1, 2}, []any{}, "$required", []any{map[string]any{"a": 1}, "$required", map[string]any{"b": []any{"$required"}}}}
+	lookalike2 := core.Space{Name: "list-rooted-documents", N: int64(len(rootLists)),
+		Desc: func(i int64) any { return []any{rootLists[i]} },
+		Run:  func(c *core.Ctx, i int64) { c17Check(c, []any{rootLists[i]}) }}
 	cliTrees := gen.Filter(gen.Trees(a, 3), gen.IsMap)
 	nc := int64(len(cliTrees))
 	cli := core.Space{Name: "cli", N: nc * nc,
@@ -709,7 +729,7 @@ func buildC17(tier string) *core.Plan {
 			c.Outcome("cli-ok")
 		}}
 	return &core.Plan{
-		Spaces:      []core.Space{single, two, three, mixedSpace, cli, lookalike},
+		Spaces:      []core.Space{single, two, three, mixedSpace, cli, lookalike, lookalike2},
 		Rule:        "every chain of 1-3 map-rooted layers over keys {a,b}, scalars {1, x, $required}, lists <=3 (single layers up to N nodes, pairs up to N-1, triples up to 3): $required at every subset of positions, upper layers overriding every subset; CLI runs with filename inheritance in format mixes; non-trivial = the merged document holds a marker",
 		Assumptions: []string{"marker positions are compared as multisets of paths with list indices erased; in-process runs use cmd/bklr/required.go copied from /repo's working tree at build time"},
 		Bounds:      map[string]any{"nodes": n},
